@@ -2,6 +2,7 @@
 C02 — model of the timer core of the event loop:
   modules/event/common_loop_timer.cpp  (addTimer / deleteTimer / handleExpiredTimers)
   modules/event/timer_event_impl.cpp   (TimerEventImpl: initialize/enable/disable/onEvent/dtor)
+  modules/eventx/timer_pool.cpp        (TimerPool: doEvery/doAfter/doAt/cancel/cleanup — section `Pool`)
 
 The min-heap is a list of records; *which* of several records with the same minimal
 deadline is served first is left open (a `fire` step names the record), so the theorems
@@ -9,8 +10,11 @@ hold for every tie-break the C++ heap algorithms may take.  `deleteTimer` is mod
 removal of the record with that token (the code zeroes the deadline, re-heapifies and pops
 the minimum; with all live deadlines > 0 — the clock is > 0 — that is the same record;
 std::make_heap/pop_heap are trusted).  Callbacks are scripts of API calls carried in the
-object, so calls made from inside callbacks are ordinary model steps.
-`base`/`k` are ghost fields (time of enablement, firings so far) used only by theorems.
+object, so calls made from inside callbacks are ordinary model steps.  A script may itself
+create timers (`newObj`, `doAfter`, `doEvery` carry the script of the timer they create), so
+`Act` is a nested inductive type.
+`base`/`k` are ghost fields (time of enablement, firings so far) used only by theorems;
+`killed` is a ghost list (pool tokens on which `cancel` returned true / that `cleanup` retired).
 -/
 namespace Tbox.C02
 
@@ -29,7 +33,12 @@ inductive Act where
   | enable (j : Nat)
   | disable (j : Nat)
   | destroy (j : Nat)
-deriving Repr, DecidableEq
+  | newObj (script : List Act)                 -- loop->newTimerEvent() + setCallback(script) from inside a callback
+  | doAfter (ms : Nat) (script : List Act)     -- TimerPool::doAfter(ms, script)
+  | doEvery (ms : Nat) (script : List Act)     -- TimerPool::doEvery(ms, script)
+  | cancel (k : Nat)                           -- TimerPool::cancel(token k)
+  | cleanup                                    -- TimerPool::cleanup()
+  | pfree (k : Nat)                            -- tail of the doAfter wrapper: timers_.free(token); runNext(delete timer)
 
 structure Obj where
   alive    : Bool := true
@@ -39,7 +48,6 @@ structure Obj where
   interval : Nat := 0
   token    : Option Nat := none
   script   : List Act := []
-deriving Repr
 
 /-- one callback invocation, as logged: object, the pass's `now`, ghost base / firing number /
 interval of the record, whether the object was alive∧enabled when the callback was entered,
@@ -65,6 +73,8 @@ structure State where
   nObjs   : Nat := 0
   log     : List Fired := []       -- newest first
   lastDeadline : Nat := 0          -- ghost: deadline served last in the running pass
+  pool    : List Nat := []         -- TimerPool::Impl::timers_ : the live pool tokens (see section `Pool`)
+  killed  : List Nat := []         -- ghost: pool tokens retired by cancel (returning true) / cleanup
 
 def State.obj (s : State) (j : Nat) : Obj := s.objs j
 def State.setObj (s : State) (j : Nat) (o : Obj) : State :=
@@ -82,7 +92,7 @@ def disable (s : State) (j : Nat) : State × Bool :=
       | none => s.timers
     ({ s with timers := timers }.setObj j { o with enabled := false }, true)
 
-/-- `TimerEventImpl::initialize` -/
+/-- `TimerEventImpl::initialize` (re-initialising an enabled timer disables it first) -/
 def initTimer (s : State) (j : Nat) (ms : Nat) (oneshot : Bool) : State × Bool :=
   if !(s.obj j).alive then (s, false) else
   let s1 := (disable s j).1
@@ -101,21 +111,94 @@ def enable (s : State) (j : Nat) : State × Bool :=
     ({ s with timers := r :: s.timers, nextTok := s.nextTok + 1 }.setObj j
         { o with enabled := true, token := some s.nextTok }, true)
 
-/-- `~TimerEventImpl` -/
+/-- `~TimerEventImpl` (destruction while enabled disables first) -/
 def destroy (s : State) (j : Nat) : State × Bool :=
   if !(s.obj j).alive then (s, false) else
   let s1 := (disable s j).1
   (s1.setObj j { s1.obj j with alive := false }, true)
+
+/-- `loop->newTimerEvent()` + `setCallback(script)`: the new object gets the next serial -/
+def newObjS (s : State) (sc : List Act) : State :=
+  { s.setObj s.nObjs { script := sc } with nObjs := s.nObjs + 1 }
+
+/-! ### TimerPool (eventx/timer_pool.cpp)
+
+`TimerPool::Impl` = the loop + a cabinet `timers_` of TimerEvents.  The cabinet is rendered by its
+contract as repaired (theorem `C08_cab_lookup` of the C08 package: a token resolves to the object
+stored at its `alloc` until it is freed or the cabinet cleared, and to nothing ever after — tokens
+are never reissued): the token of a pool timer IS the serial of its TimerEvent object (`nObjs` only
+grows, so a serial is never handed out twice) and `State.pool` is the set of live tokens. -/
+namespace Pool
+
+/-- is `k` a live token of the cabinet (`timers_.at(k) != nullptr`)? -/
+def live (s : State) (k : Nat) : Bool := s.pool.contains k
+
+/-- common part of doEvery / doAfter: newTimerEvent, `timers_.alloc`, initialize, setCallback, enable;
+returns the token -/
+def add (s : State) (ms : Nat) (oneshot : Bool) (sc : List Act) : State × Nat :=
+  let j := s.nObjs
+  let s1 := newObjS s sc
+  let s2 : State := { s1 with pool := j :: s1.pool }
+  let s3 := (initTimer s2 j ms oneshot).1
+  ((enable s3 j).1, j)
+
+/-- `TimerPool::doEvery` -/
+def doEvery (s : State) (ms : Nat) (sc : List Act) : State × Nat := add s ms false sc
+
+/-- `TimerPool::doAfter`: the installed callback is `cb(); timers_.free(token); runNext(delete timer)` -/
+def doAfter (s : State) (ms : Nat) (sc : List Act) : State × Nat := add s ms true (sc ++ [.pfree s.nObjs])
+
+/-- `TimerPool::doAt(tp)` with the system clock reading `wall` (both in ms): `doAfter(tp − wall)`.
+Only time points in the future are in the model (a non-positive difference reaches
+`addTimer` as a huge unsigned interval; outside the property, d ≥ 1). -/
+def doAt (s : State) (wall tp : Int) (sc : List Act) : Option (State × Nat) :=
+  if 1 ≤ tp - wall then some (doAfter s (tp - wall).toNat sc) else none
+
+/-- `TimerPool::cancel`: `timers_.free(token)`; if it was live: `timer->disable()` and delete the
+TimerEvent (deferred through `run()` while the loop runs: nothing can reach the object in between,
+its token is gone) -/
+def cancel (s : State) (k : Nat) : State × Bool :=
+  if live s k then
+    let s1 : State := { s with pool := s.pool.filter (fun x => x != k), killed := k :: s.killed }
+    let s2 := (disable s1 k).1
+    ((destroy s2 k).1, true)
+  else (s, false)
+
+/-- `TimerPool::cleanup`: `timers_.foreach(disable + delete)`, `timers_.clear()` -/
+def cleanup (s : State) : State :=
+  let s1 := s.pool.foldl (fun st k => (destroy (disable st k).1 k).1) s
+  { s1 with pool := [], killed := s.pool ++ s.killed }
+
+/-- tail of the doAfter wrapper, run after the user callback: `timers_.free(token)` and delete -/
+def free (s : State) (k : Nat) : State :=
+  if live s k then (destroy { s with pool := s.pool.filter (fun x => x != k) } k).1 else s
+
+end Pool
 
 def act (s : State) : Act → State × Bool
   | .init j ms o => initTimer s j ms o
   | .enable j => enable s j
   | .disable j => disable s j
   | .destroy j => destroy s j
+  | .newObj sc => (newObjS s sc, true)
+  | .doAfter ms sc => ((Pool.doAfter s ms sc).1, true)
+  | .doEvery ms sc => ((Pool.doEvery s ms sc).1, true)
+  | .cancel k => Pool.cancel s k
+  | .cleanup => (Pool.cleanup s, true)
+  | .pfree k => (Pool.free s k, true)
 
 def runScript (s : State) : List Act → State
   | [] => s
   | a :: as => runScript (act s a).1 as
+
+/-- the same, also collecting the return value of every call (the driver compares them with the
+implementation's) -/
+def runScriptR (s : State) : List Act → State × List Bool
+  | [] => (s, [])
+  | a :: as =>
+    let (s1, r) := act s a
+    let (s2, rs) := runScriptR s1 as
+    (s2, r :: rs)
 
 /-- `TimerEventImpl::onEvent`: one-shot marks itself disabled first, then the user callback -/
 def onEvent (s : State) (j : Nat) : State :=
@@ -141,6 +224,22 @@ def fire (s : State) (r : Rec) : State :=
                       prevDeadline := s.lastDeadline, oneshot := r.oneshot }
   onEvent { s with timers := timers, log := ev :: s.log, lastDeadline := r.expired } r.owner
 
+/-- the state in which the callback script of record `r` starts (timers re-armed/popped, event logged,
+one-shot flag reset): `fire s r = runScript (fireHead s r) script` (theorem `fire_eq`) -/
+def fireHead (s : State) (r : Rec) : State :=
+  let t := s.passNow.getD s.now
+  let rest := s.timers.filter (fun q => q.tok != r.tok)
+  let timers := if r.oneshot then rest else { r with expired := r.expired + r.interval, k := r.k + 1 } :: rest
+  let o := s.obj r.owner
+  let ev : Fired := { obj := r.owner, passNow := t, base := r.base, n := r.k + 1, interval := r.interval,
+                      okAtCall := o.alive && o.enabled, deadline := r.expired,
+                      prevDeadline := s.lastDeadline, oneshot := r.oneshot }
+  let s0 : State := { s with timers := timers, log := ev :: s.log, lastDeadline := r.expired }
+  if o.oneshot then s0.setObj r.owner { o with enabled := false, token := none } else s0
+
+/-- `fire` with the return values of the calls made by the callback (theorem `fireR_fst`: same state) -/
+def fireR (s : State) (r : Rec) : State × List Bool := runScriptR (fireHead s r) (s.obj r.owner).script
+
 inductive Step where
   | newObj (script : List Act)       -- loop->newTimerEvent() + setCallback(script)
   | api (a : Act)                    -- API call made outside any callback
@@ -148,7 +247,6 @@ inductive Step where
   | beginPass                        -- handleExpiredTimers reads the clock once
   | fire (tok : Nat)                 -- serves the record with this token
   | endPass                          -- loop condition `now < front.expired` (or empty heap)
-deriving Repr
 
 def findTok (s : State) (tok : Nat) : Option Rec := s.timers.find? (fun r => r.tok == tok)
 
@@ -165,7 +263,7 @@ def valid (s : State) : Step → Bool
       | none => false
 
 def step (s : State) : Step → State
-  | .newObj sc => { s.setObj s.nObjs { script := sc } with nObjs := s.nObjs + 1 }
+  | .newObj sc => newObjS s sc
   | .api a => (act s a).1
   | .advance d => { s with now := s.now + d }
   | .beginPass => { s with passNow := some s.now, lastDeadline := 0 }
@@ -180,5 +278,49 @@ def exec (s : State) : List Step → Option State
   | st :: sts => if valid s st then exec (step s st) sts else none
 
 def init : State := {}
+
+/-! ### decidable predicates on scripts and step lists used as theorem hypotheses -/
+
+mutual
+/-- every interval mentioned by the act (also inside the scripts it carries) is ≥ 1 ms -/
+def Act.pos : Act → Bool
+  | .init _ ms _ => decide (1 ≤ ms)
+  | .newObj sc => posList sc
+  | .doAfter ms sc => decide (1 ≤ ms) && posList sc
+  | .doEvery ms sc => decide (1 ≤ ms) && posList sc
+  | _ => true
+def posList : List Act → Bool
+  | [] => true
+  | a :: as => a.pos && posList as
+end
+
+mutual
+/-- the act is a call a user of the TimerPool can make (also inside the callbacks it installs) -/
+def Act.pu : Act → Bool
+  | .doAfter _ sc => puList sc
+  | .doEvery _ sc => puList sc
+  | .cancel _ => true
+  | .cleanup => true
+  | _ => false
+def puList : List Act → Bool
+  | [] => true
+  | a :: as => a.pu && puList as
+end
+
+def Step.pos : Step → Bool
+  | .newObj sc => posList sc
+  | .api a => a.pos
+  | _ => true
+
+/-- "all intervals are ≥ 1": every `init`/`doAfter`/`doEvery`, in API steps and in every callback script -/
+def posSteps (sts : List Step) : Bool := sts.all Step.pos
+
+def Step.pu : Step → Bool
+  | .newObj _ => false
+  | .api a => a.pu
+  | _ => true
+
+/-- the execution uses timers only through the TimerPool -/
+def puSteps (sts : List Step) : Bool := sts.all Step.pu
 
 end Tbox.C02
